@@ -1,0 +1,22 @@
+//! Verification hook for property C02 (read-only): the UTF-8 matcher automata before compilation
+//! and the private `utf8_decode`.
+use super::{UTF8Mode, utf8_nfa};
+use crate::automata::verif_c15::VerifNfaDump;
+
+/// Dump of `utf8_nfa(mode)`: 0 = `Canonical` (`Utf8Decoder`), 1 = `Printable` (event decoder),
+/// 2 = `NotEscape` (command decoder)
+pub fn utf8_nfa_dump(mode: u8) -> VerifNfaDump<()> {
+    let mode = match mode {
+        0 => UTF8Mode::Canonical,
+        1 => UTF8Mode::Printable,
+        _ => UTF8Mode::NotEscape,
+    };
+    utf8_nfa::<()>(mode).verif_dump()
+}
+
+/// Private `utf8_decode` (the value of the `char` it builds with `from_u32_unchecked`).
+///
+/// Must only be called on byte strings accepted by the UTF-8 automaton, exactly as the decoders do.
+pub fn utf8_decode(slice: &[u8]) -> u32 {
+    super::utf8_decode(slice) as u32
+}
